@@ -28,7 +28,7 @@ BOUNDS = {"quick": "k=2 operations over 2 file names and 2 chunk positions, cont
                    "writer/reader (flat, gzip) combinations; confinement: all joins of <=3 segments from {'..','.','','a','b:0'} "
                    "with and without leading '/', for FileAccessor and ShardedFileAccessor store/fetch/exists",
           "thorough": "k=3 operations; confinement with <=4 segments"}
-OUTSIDE = ["validity of real gzip byte streams", "compression level (ignored by the model)", "non-POSIX path semantics",
+OUTSIDE = ["validity of real gzip byte streams", "the effect of the compression level on the compressed bytes (levels 0, 1, 6, 9 are passed; the model's gzip stream does not depend on it)", "non-POSIX path semantics",
            "symbolic path strings (enumerated spellings only; CrossHair was inconclusive on pathlib, DESIGN.md section 6)"]
 
 # two names that share a stem and differ only in the last extension, one name with a colon, one exempt from compression
@@ -40,8 +40,8 @@ NO_COMPRESS = {"application/json", "image/jpeg", "image/png"}
 def configs(tier, seed):
     out = []
     k = 2 if tier == "quick" else 3
-    for wf, wg, rf, rg in itertools.product((False, True), repeat=4):
-        out.append(dict(harness="history", k=k, writer=[wf, wg], reader=[rf, rg], cost=5 if k == 2 else 40,
+    for n_, (wf, wg, rf, rg) in enumerate(itertools.product((False, True), repeat=4)):
+        out.append(dict(harness="history", k=k, writer=[wf, wg], reader=[rf, rg], level=(0, 6, 9, 1)[n_ % 4], cost=5 if k == 2 else 40,
                         wall=3000, max_paths=200000))
     segs = ["..", ".", "", "a", "b:0"]
     n = 3 if tier == "quick" else 4
@@ -95,7 +95,7 @@ def H_history(ctx, cfg):
     base = "/mfs/ds"
     wf, wg = cfg["writer"]
     rf, rg = cfg["reader"]
-    w = fa.FileAccessor(base, flat=wf, gzip=wg, compresslevel=6)
+    w = fa.FileAccessor(base, flat=wf, gzip=wg, compresslevel=cfg.get("level", 6))      # level 0 is a valid gzip level (stored blocks)
     r = fa.FileAccessor(base, flat=rf, gzip=rg)
     store = {}
     hist = []
@@ -278,7 +278,7 @@ def replay(cfg, cex):
         base = os.path.join(td, "ds")
         wf, wg = cfg["writer"]
         rf, rg = cfg["reader"]
-        w = fa.FileAccessor(base, flat=wf, gzip=wg, compresslevel=6)
+        w = fa.FileAccessor(base, flat=wf, gzip=wg, compresslevel=cfg.get("level", 6))
         r = fa.FileAccessor(base, flat=rf, gzip=rg)
         store = {}
         for step, h in enumerate(inp["history"]):
